@@ -124,6 +124,7 @@ def key_method(it, fr, obj, attr, args, kw):
     else:
         if attr == 'sign' and len(args) == 1:
             it.step('sign')
+            it.eng.event('sign')
             used('Ed25519PrivateKey.sign: uninterpreted function Sign(sk, msg), 64 bytes, Valid(Pub(sk), Sign(sk,m), m)')
             data = _bytes_arg(it, fr, args[0], 'sign')
             signs = eng.path_local.setdefault('signs', [])
@@ -277,6 +278,7 @@ def canon_of(it, value, flavour='canon'):
     """bytes token for the canonical serialisation of an engine value"""
     used('json.dumps(obj, indent=2, sort_keys=True).encode("utf-8") on symbolic obj: opaque token Canon(obj); Canon injective, Parse(Canon(v)) = v (A3; attacked by C07)')
     eng = it.eng
+    eng.event('serialize', how=flavour)
     stamp = struct_stamp(value)
     cache = eng.path_local.setdefault('canon', {})
     key = (flavour, stamp)
@@ -422,6 +424,26 @@ def json_loads(it, fr, s, **kw):
     return json_loads_value(it, fr, fr.split(s))
 
 
+def json_dump(it, fr, obj, fp, *a, **kw):
+    """json.dump(obj, fp, **kw) = fp.write(json.dumps(obj, **kw)); the serialisation happens while the file is open"""
+    it.step('json.dump')
+    it.eng.event('serialize', how='json.dump')
+    text = json_dumps(it, fr, obj, *a, **kw)
+    fp = fr.split(fp)
+    if isinstance(fp, Opaque) and fp.what == 'file':
+        if fp.binary:
+            raise PyExc(TypeError("a bytes-like object is required, not 'str'"))
+        # text file: content is the encoded serialisation
+        data = text_encode(it, fr, text, 'utf-8') if isinstance(text, SText) else text
+        fs = get_fs(it)
+        fs.files[fp.ident] = data
+        fs.log.append(('write', fp.ident, data))
+        it.eng.event('write', path=fp.ident)
+        return None
+    raise Unsupported('json.dump to ' + type(fp).__name__)
+
+
+SPECIAL[json.dump] = json_dump
 SPECIAL[json.dumps] = json_dumps
 SPECIAL[json.load] = json_load
 SPECIAL[json.loads] = json_loads
@@ -478,6 +500,8 @@ def sp_open(it, fr, file, mode='r', *a, **kw):
     fs = get_fs(it)
     key = path_key(file)
     fs.log.append(('open', key, mode))
+    if isinstance(fs.files.get(key), SAny):        # which alternative the file holds is decided when it is first opened
+        fs.files[key] = fr.split(fs.files[key])
     binary = 'b' in mode
     if 'r' in mode and '+' not in mode:
         if fs.files.get(key) is None:
